@@ -1282,6 +1282,7 @@ func (fc *FnCtx) loopCore(st *State, node ast.Node, label string, cond ast.Expr,
 	jt := &jumpTarget{label: label, isLoop: true}
 	fc.breakStk = append(fc.breakStk, jt)
 	// 3. condition
+	headSt := head.clone()
 	var bodySt, exitSt *State
 	if cond != nil {
 		bodySt, exitSt = fc.branch(head, cond)
@@ -1295,7 +1296,9 @@ func (fc *FnCtx) loopCore(st *State, node ast.Node, label string, cond ast.Expr,
 		fc.iterResets(bodySt, li, node)
 		fc.canary(bodySt, fmt.Sprintf("canary.loop%d.body", li.ord), node.Pos())
 		if li.spec != nil && li.spec.Decreases != nil && fc.terminationActive() {
-			v0 = fc.define(asInt(fc.specVal(bodySt, li.spec.Decreases, &specEnv{fc: fc, st: bodySt, old: fc.entry, at: node.Pos(), scopeNode: node})), "variant")
+			// the variant is sampled at the loop head, before the condition is evaluated: a condition with a side effect
+			// (for scanner.next() { ... }) may be what makes progress
+			v0 = fc.define(asInt(fc.specVal(headSt, li.spec.Decreases, &specEnv{fc: fc, st: headSt, old: fc.entry, at: node.Pos(), scopeNode: node})), "variant")
 			fc.assert(bodySt, "decreases", fmt.Sprintf("loop%d.decreases.bounded", li.ord), le(mkInt(0), v0), node.Pos(), li.spec.DecSrc)
 		}
 		fc.inLoopBody++
